@@ -216,7 +216,7 @@ theorem dirLeafX : LeafX DirInv where
   setLoopStop := fun b => by unfold setLoopStop; view_same
   clearDone := by unfold clearDone; view_same
   unregister := dir_unregister
-  registerNew := dir_registerNew
+  registerNew := fun w _ => dir_registerNew w
   fireSleeper := fun sl => by unfold fireSleeper; view_same
   enqueueResume := fun k v w => by unfold enqueue; view_same
   enqueueCallback := fun n => by unfold enqueue; view_same
